@@ -66,8 +66,11 @@ def run_property(pid, tier, seed):
     if hasattr(propmod, "extra_obligations"):
         extra = propmod.extra_obligations(prog, schema, reg, eng)
         obls += extra
-    timeout = 10000 if tier == "quick" else 60000
-    results = solve.discharge(obls, timeout_ms=timeout)
+    # generous budgets: proofs on the unchanged tree take milliseconds to a few seconds; the budget only
+    # matters for obligations that fail, and must leave headroom on slower / busier machines
+    timeout = 60000 if tier == "quick" else 180000
+    stats = {}
+    results = solve.discharge(obls, timeout_ms=timeout, stats=stats)
     if os.environ.get("VERIF_RECORD_BASELINE"):
         os.makedirs(os.path.join(ROOT, "baseline"), exist_ok=True)
         proved = {}
@@ -78,6 +81,15 @@ def run_property(pid, tier, seed):
         with open(os.path.join(ROOT, "baseline", pid + ".json"), "w") as f:
             json.dump({"property": pid, "proved_clauses": sorted(k for k, v in proved.items() if v)}, f, indent=0)
     baseline = load_baseline(pid)
+    # obligations that were discharged on the unchanged tree but came back 'unknown': one more attempt with a
+    # much larger budget before they are treated as failed (a verdict must not flip because the machine is slow)
+    if baseline is not None:
+        retry = [i for i, r in enumerate(results) if r.status == "unknown" and clause_key(r.ob.name) in baseline]
+        if retry:
+            again = solve.discharge([results[i].ob for i in retry], timeout_ms=max(4 * timeout, 240000))
+            for i, r2 in zip(retry, again):
+                r2.secs += results[i].secs
+                results[i] = r2
     kf = load_known_findings()
     known = [k for k in kf.get("open", []) if k["property"] == pid]
     violations, unknowns, vacuous, known_hit = [], [], [], []
@@ -214,6 +226,7 @@ def run_property(pid, tier, seed):
             "functions_under_contract": functions,
             "per_obligation": per,
             "solver_seconds": round(sum(r.secs for r in results), 2),
+            "verdicts_reused_for_identical_queries": stats.get("cache_hits", 0),
             "covers": {"checked": len(covers), "satisfiable": sum(1 for r in covers if r.status == "covered")},
             "undecided": [{"target": driver.contract_name(c), "reason": w.splitlines()[0]} for c, w in undecided if c],
             "known_findings_reproduced": [k["id"] for k, _ in known_hit],
